@@ -11,8 +11,12 @@ from . import engine, procs
 from . import model as M
 from . import recipes as R
 
-LEAF_IDS = "abcdefghij"
-COMP_IDS = "ABCDEFGHJKLMNPQRSTUVWXYZ"
+LEAF_IDS = "abcdefghijxyz"
+# explicit compound ids: mostly early capitals (sort before generated "VAR…" ids), some late capitals (sort after
+# them) and a few lower-case ones (sort among the leaves): column order mixes the three kinds
+COMP_IDS = "ABCDEFGHJKLMNPQRSTU"
+COMP_IDS_LATE = "WXYZ"
+COMP_IDS_LOW = "kmnq"
 BOUNDS_FAMILIES = {
     "small": [(0, 2), (0, 3), (1, 3), (-1, 1), (-2, 2), (0, 1)],
     "twin": [(0, 2), (1, 1), (0, 3), (1, 2), (-1, 2), (-2, 2), (0, 4), (1, 3), (2, 2)],
@@ -92,7 +96,8 @@ class Gen:
         self.dead = set()     # handles on which the built-in solver hung: never handed to it again
         self.leafb = {}
         fam = BOUNDS_FAMILIES[self.p["bounds_family"]]
-        for c in LEAF_IDS[:self.p["nleaves"]]:
+        pool = LEAF_IDS[:self.p["nleaves"]] if rng.random() < 0.6 else "".join(sorted(rng.sample(LEAF_IDS, min(len(LEAF_IDS), self.p["nleaves"]))))
+        for c in pool:
             if rng.random() < self.p["int_leaf_prob"]:
                 self.leafb[c] = rng.choice(fam)
             else:
@@ -222,6 +227,11 @@ class Gen:
         rng = self.rng
         if rng.random() < self.p["explicit_id_prob"]:
             free = [c for c in COMP_IDS if c not in used]
+            r0 = rng.random()
+            if r0 < 0.12:
+                free = [c for c in COMP_IDS_LATE if c not in used] or free
+            elif r0 < 0.2:
+                free = [c for c in COMP_IDS_LOW if c not in used and c not in self.leafb] or free
             if free:
                 i = rng.choice(free[:8])
                 used.add(i)
@@ -399,6 +409,32 @@ class Gen:
                 del self.handles[h]
                 self.order.remove(h)
         raise RuntimeError("could not generate a well-defined model")
+
+    def complement_rule(self, h, used):
+        """a rule containing a plain Any over exactly the non-default items of a defaulted cc.Any/cc.Xor that the
+        configurator already has: it gets the same generated id as the library's internal complement node (which
+        carries prio -2) – identical definition, different prio; which copy wins must not depend on history"""
+        rng = self.rng
+        rec = self.recipe_of(h)
+        if rec is None:
+            return None
+        cands = []
+        for n in R.walk(rec):
+            if n[0] in ("ccAny", "ccXor") and n[2] is not None:
+                d = n[2][0] if isinstance(n[2], list) and n[2] and n[2][0] != "dv" else (n[2][1] if isinstance(n[2], list) else n[2])
+                rest = [c for c in n[1] if c[0] in ("var", "str") and c[1] != d]
+                if rest and len(rest) < len(n[1]):
+                    cands.append(rest)
+        if not cands:
+            return None
+        rest = copy.deepcopy(rng.choice(cands))
+        inner = ["Any", rest, None]
+        r = rng.random()
+        if r < 0.35:
+            return inner
+        if r < 0.7:
+            return [rng.choice(["All", "Any"]), [inner, self.leaf(rng.choice(sorted(self.leafb)))], self.idspec(used)]
+        return ["Imply", self.leaf(rng.choice(sorted(self.leafb))), inner, self.idspec(used)]
 
     def recipe_of(self, h, depth=0):
         """construction recipe behind a handle (through restores / b64 round trips), if known"""
@@ -589,7 +625,7 @@ class Gen:
             self.last_keys[h] = list(chosen)
         d = []
         for i in chosen:
-            w = rng.choice([-3, -2, -1, 1, 1, 2, 3, 5] + ([0] if allow_zero else []))
+            w = rng.choice([-3, -2, -2, -1, -1, 1, 1, 2, 3, 5] + ([0] if allow_zero else []))
             d.append([i, w])
         if rng.random() < 0.08:
             d.append(["zz", 1])
@@ -700,7 +736,9 @@ class Gen:
                 rec = ["Any", [self.leaf(rng.choice(leaves))], rng.choice(sorted(H["info"]["comps"]))]
             elif r < 0.25:
                 rec = self.leaf(rng.choice(leaves))
-            elif r < 0.40 and self.recipe_of(h) is not None:
+            elif r < 0.33 and self.complement_rule(h, set(used)) is not None:
+                rec = self.complement_rule(h, used)
+            elif r < 0.45 and self.recipe_of(h) is not None:
                 # a rule that contains a *copy* of a sub-proposition the configurator already has (identical
                 # definition, distinct object): legal sharing; equal nodes must de-duplicate
                 subs = [n for n in R.walk(self.recipe_of(h)) if n[0] in R.LIST_CHILD_POS and n[0] != "Stingy"
@@ -746,6 +784,22 @@ class Gen:
             op["out"] = self.fresh("it")
             self.fault("defer")
 
+    def _late_echo(self, creator_idx):
+        """the request whose lazy result was just abandoned (maybe half consumed) is made again, identically, on
+        the same object: a memo committed from a generator's cleanup would replay a truncated answer"""
+        rng = self.rng
+        if rng.random() < 0.5 and creator_idx is not None and creator_idx < len(self.ops):
+            cop = self.ops[creator_idx]
+            if cop.get("op") == "call" and cop["h"] in self.order:
+                e = _retarget(self, cop, cop["h"])
+                e["consume"] = "now"
+                e.pop("out", None)
+                before = len(self.ops)
+                self.emit(e)
+                if len(self.ops) > before:
+                    self.events.append((e["m"], "same", ("echo", "after-abandon")))
+                    self.hit("echo-after-abandoned-lazy-result")
+
     def step_iterators(self):
         """maybe consume / abandon a live lazy result"""
         rng = self.rng
@@ -768,7 +822,7 @@ class Gen:
                     self.emit({"op": "drop", "it": it})
                     self.fault("abandon")
                     self.events.append(("drop", "it"))
-                    del self.its[it]
+                    self._late_echo(self.its.pop(it))
             return True
         return False
 
@@ -796,9 +850,62 @@ def triple_of(index):
             RELATIONS[i // (len(POLLUTERS) * len(OBSERVERS))])
 
 
+def gen_c09_pressure(rng, oracle, p, tier):
+    """cache-pressure session: X is queried, then well over 128 other configurators are queried in the same
+    process (a default-sized LRU / any bounded table evicts and recycles), then an identical X is rebuilt and
+    asked the same things – and so is the original X"""
+    p = dict(p)
+    p["nleaves"] = rng.choice([5, 6, 8])
+    p["depth"] = 1
+    p["fan"] = 3
+    p["int_leaf_prob"] = rng.choice([0, 0.2])
+    p["builtin_solver_prob"] = 0.3
+    g = Gen(rng, p, oracle)
+    x = g.new_model(want_cfg=True)
+    asked = []
+    for m in ["ge_polyhedron", "default_prios", "leafs", "select", "to_ge_polyhedron", "to_text"]:
+        if rng.random() < 0.8 or m == "ge_polyhedron":
+            op, tags = g.op_for(x, m)
+            op.pop("consume", None)
+            if op.get("out", "").startswith("it"):
+                op.pop("out")
+            before = len(g.ops)
+            g.emit(op)
+            if len(g.ops) > before:
+                asked.append(op)
+                g.events.append((op["m"], "first", ("pressure",)))
+    n_others = rng.randint(130, 160) if tier == "thorough" or rng.random() < 0.7 else rng.randint(20, 60)
+    for i in range(n_others):
+        try:
+            h = g.new_model(want_cfg=True, tries=3)
+        except RuntimeError:
+            continue
+        g.emit({"op": "call", "h": h, "m": rng.choice(["ge_polyhedron", "ge_polyhedron", "leafs", "default_prios"])})
+        if rng.random() < 0.1:
+            g.emit({"op": "forget", "h": h})
+            g.order.remove(h)
+    g.events.append(("population", "other", (str(n_others // 32 * 32) + "+",)))
+    g.hit("cache-pressure:other-configurators-queried", n_others)
+    clone = g.fresh()
+    g.emit({"op": "new", "h": clone, "recipe": copy.deepcopy(g.handles[x]["recipe"])}, {"twin_of": x})
+    for tgt, tag in ((clone, "twin"), (x, "first")):
+        if tgt not in g.handles:
+            continue
+        for op in asked:
+            e = _retarget(g, op, tgt)
+            g.emit(e)
+            g.events.append((e["m"], tag, ("echo", "after-pressure")))
+    g.hit("cache-pressure:identical-configurator-rebuilt-and-asked-again")
+    meta = {"profile": p, "triple": ["pressure", "pressure", "twin"], "fired": {"cache-pressure": 1}, "events": g.events,
+            "skipped": g.skipped, "hits": g.hits}
+    return g.ops, g.refs, meta
+
+
 def gen_c09(rng, oracle, run_index, tier="quick"):
     """program for C09: population of models/configurators with aliases and near-twins, full op mix"""
     p = make_profile(rng, tier)
+    if rng.random() < (0.012 if tier == "quick" else 0.04):
+        return gen_c09_pressure(rng, oracle, p, tier)
     pol, obs, rel = triple_of(run_index)
     need_cfg = pol in ("ge_polyhedron", "select", "leafs", "add") or obs in ("ge_polyhedron", "select", "default_prios", "leafs")
     if pol.endswith("+cid"):
@@ -945,7 +1052,7 @@ def gen_c09(rng, oracle, run_index, tier="quick"):
             # echo: the identical request on a near-twin / alias / the same object
             rel_h = [o for o in g.related(op["h"]) if g.handles[o]["kind"] == g.handles[op["h"]]["kind"]]
             tgt = rng.choice(rel_h) if rel_h and rng.random() < 0.7 else op["h"]
-            e = _retarget(g, op, tgt)
+            e = _retarget(g, op, tgt, perturb=rng.random() < 0.4)
             before = len(g.ops)
             g.emit(e, {"base": e["h"]} if e.get("out") and e["m"] in ("assume", "reduce", "negate", "add", "json_rt", "b64_rt") else None)
             if len(g.ops) > before:
@@ -964,9 +1071,50 @@ def gen_c09(rng, oracle, run_index, tier="quick"):
     return g.ops, g.refs, meta
 
 
-def _retarget(g, op, h):
+def _perturb(g, e):
+    """near-identical request: one value moved to a hash-colliding / neighbouring one (-1 <-> -2, else +-1)"""
+    rng = g.rng
+    a = e.get("a") or {}
+
+    def tweak(v):
+        if isinstance(v, bool) or not isinstance(v, int):
+            return None
+        if v == -1:
+            return -2
+        if v == -2:
+            return -1
+        return v + rng.choice([-1, 1])
+    for key in ("i",):
+        items = a.get(key)
+        if items:
+            idx = [j for j, (k, v) in enumerate(items) if tweak(v) is not None]
+            neg = [j for j in idx if items[j][1] in (-1, -2)]
+            if idx:
+                j = rng.choice(neg or idx)
+                items[j][1] = tweak(items[j][1])
+                return True
+    for key in ("objs", "prios"):
+        lst = a.get(key)
+        if lst:
+            cands = [(x, j) for x, d in enumerate(lst) for j, (k, v) in enumerate(d) if tweak(v) is not None]
+            neg = [(x, j) for x, j in cands if lst[x][j][1] in (-1, -2)]
+            if cands:
+                if neg and len(neg) >= 2 and rng.random() < 0.6:
+                    for x, j in neg:      # swap every -1 <-> -2
+                        lst[x][j][1] = tweak(lst[x][j][1])
+                else:
+                    x, j = rng.choice(neg or cands)
+                    nv = tweak(lst[x][j][1])
+                    lst[x][j][1] = nv if nv != 0 or key == "objs" else 1
+                return True
+    return False
+
+
+def _retarget(g, op, h, perturb=False):
     e = copy.deepcopy(op)
     e["h"] = h
+    if perturb and _perturb(g, e):
+        g.hit("echo-perturbed(-1<->-2 or +-1)")
     if e.get("out"):
         e["out"] = g.fresh("it" if e.get("consume") == "defer" else "h")
     return e
